@@ -118,6 +118,7 @@ def build_jobs(run, quick: bool, rng: random.Random) -> list[dict]:
     jobs += [{"id": f"frag:{f}", "kind": "frag", "src": t} for f, t in R.fragments(files, 10 if quick else 12, run.seed)]
     jobs += [{"id": f"noise:{i}", "kind": "noise", "src": t} for i, (_n, t) in enumerate(R.noise(500 if quick else 20000, run.seed))]
     jobs += expr_jobs(1000 if quick else 10000, run.seed)
+    jobs += [{"id": f"growth:{n}", "kind": "growth", "src": t} for n, t in R.growth_scripts()]
     return jobs
 
 
